@@ -26,7 +26,7 @@ type runnerSpec struct {
 	Mode   string
 	At     int    // x100ms, for "return"
 	Post   int    // ms, for "wait"
-	Result string // nil | err | canceled | wrapped | ctxerr
+	Result string // nil | err | canceled | wrapped | ctxerr | deadline | deadline-wrapped
 }
 
 type closerSpec struct {
@@ -157,6 +157,14 @@ func runMgr(t *testing.T, c mgrCase) (nontrivial bool, classes []string, err err
 				result = context.Canceled
 			case "wrapped":
 				result = fmt.Errorf("runner-%d wrapped: %w", i, context.Canceled)
+			case "deadline":
+				// a runner's own deadline error (its own per-request timeout, say): not Canceled, so it is reported -
+				// also when the manager's context happens to have ended by a deadline itself
+				result = context.DeadlineExceeded
+				wantErrs = append(wantErrs, result)
+			case "deadline-wrapped":
+				result = fmt.Errorf("runner-%d: upstream call: %w", i, context.DeadlineExceeded)
+				wantErrs = append(wantErrs, result)
 			}
 			return func(ctx context.Context) error {
 				rec.log(fmt.Sprintf("runner%d.start", i))
@@ -620,7 +628,7 @@ func genCase(rt *rapid.T) mgrCase {
 			Mode:   rapid.SampledFrom([]string{"return", "wait", "wait"}).Draw(rt, "mode"),
 			At:     slots[i],
 			Post:   posts[i],
-			Result: rapid.SampledFrom([]string{"nil", "err", "err", "canceled", "wrapped", "ctxerr"}).Draw(rt, "result"),
+			Result: rapid.SampledFrom([]string{"nil", "err", "err", "canceled", "wrapped", "ctxerr", "deadline", "deadline-wrapped"}).Draw(rt, "result"),
 		})
 	}
 	if nr > 0 && rapid.Bool().Draw(rt, "someViaAdd") {
